@@ -79,6 +79,7 @@ pub(crate) fn deserialize_struct(
         struct_defs,
         enum_defs,
         bytes,
+        depth: 0,
     };
     let s = ctx.deserialize_struct(name)?;
     if !ctx.bytes.is_empty() {
@@ -88,6 +89,13 @@ pub(crate) fn deserialize_struct(
 }
 
 const ID_SIZE: u8 = size_of::<BaseId>() as u8;
+
+/// Maximum nesting of structs, options and results the deserializer follows.
+///
+/// Schemas produced by the compiler are acyclic and far shallower. A cyclic
+/// schema (possible in a hand-built module) would otherwise recurse without
+/// bound and overflow the stack.
+const MAX_DEPTH: usize = 128;
 
 struct SerializeCtx<'a> {
     struct_defs: &'a StructDefs,
@@ -175,6 +183,7 @@ struct DeserializeCtx<'a> {
     struct_defs: &'a StructDefs,
     enum_defs: &'a EnumDefs,
     bytes: &'a [u8],
+    depth: usize,
 }
 
 impl DeserializeCtx<'_> {
@@ -192,6 +201,16 @@ impl DeserializeCtx<'_> {
     }
 
     fn deserialize_value(&mut self, kind: &TypeKind) -> Result<Value, DeserializeError> {
+        if self.depth >= MAX_DEPTH {
+            return Err(DeserializeError::BadInput);
+        }
+        self.depth = self.depth.saturating_add(1);
+        let result = self.deserialize_value_inner(kind);
+        self.depth = self.depth.saturating_sub(1);
+        result
+    }
+
+    fn deserialize_value_inner(&mut self, kind: &TypeKind) -> Result<Value, DeserializeError> {
         use DeserializeError::BadInput as Bad;
 
         Ok(match kind {
